@@ -19,6 +19,48 @@ from vf import common, irgen, llsym, pysym, pystubs, hutil
 from vf.llsym import bv, simp, mask, is_c
 
 
+DELETE_REPLAY = r'''
+# Replay for C26: the entry of a tag must stay (with its lock) once created.  Real threads, real init_once:
+# A's initializer fails while B waits on the tag lock; B takes over; C arrives while B's initializer runs.
+import sys, threading, time
+which = %r
+if which == 'c':
+    import _cffi_backend
+    ffi = _cffi_backend.FFI()
+else:
+    import cffi
+    ffi = cffi.FFI()
+class MyErr(Exception): pass
+mu = threading.Lock(); running = [0]; most = [0]; results = {}
+a_in, a_fail, b_in, b_go = (threading.Event() for _ in range(4))
+def enter():
+    with mu:
+        running[0] += 1; most[0] = max(most[0], running[0])
+def leave():
+    with mu: running[0] -= 1
+def fA():
+    enter(); a_in.set(); a_fail.wait(10); leave(); raise MyErr()
+def fB():
+    enter(); b_in.set(); b_go.wait(10); leave(); return 'B'
+def fC():
+    enter(); time.sleep(0.3); leave(); return 'C'
+def run(name, f):
+    try: results[name] = ffi.init_once(f, 'tag')
+    except MyErr: results[name] = 'raised'
+tA = threading.Thread(target=run, args=('A', fA)); tA.start(); a_in.wait(10)
+tB = threading.Thread(target=run, args=('B', fB)); tB.start(); time.sleep(0.5)
+a_fail.set(); b_in.wait(10)
+tC = threading.Thread(target=run, args=('C', fC)); tC.start(); time.sleep(1.0)
+b_go.set()
+for t in (tA, tB, tC): t.join(20)
+bad = []
+if most[0] > 1: bad.append('%%d initializers of one tag ran at the same time' %% most[0])
+if results.get('B') != results.get('C'): bad.append('two callers got different results: %%r' %% (results,))
+for b in bad: print('VIOLATED:', b)
+sys.exit(1 if bad else 0)
+'''
+
+
 class Env(object):
     """shared state of one tag + the environment's moves"""
 
@@ -60,13 +102,30 @@ class Env(object):
     def bad(self, what):
         self.violations.append(what)
 
+    def deleted(self):
+        """the caller removes the tag's entry: other threads blocked on its lock are no longer excluded from
+        threads that arrive later and create a new entry"""
+        self.events.append('delete')
+        self.bad('entry-removed: removes the tag entry (and with it the lock other threads wait on)')
+        self.entry = None
 
-def check_env(chk, ex, env, label, outcome, my_result, returned):
+
+_replayed = {}
+
+
+def check_env(chk, ex, env, label, outcome, my_result, returned, which='py'):
     """obligations at the end of one call"""
     inputs = {}
     for v in env.violations:
         chk.query(label + ':' + v.split(':')[0], 'sat', 0.0, detail=v)
-        chk.report_failure('%s: %s (events: %s)' % (label, v, ' / '.join(env.events)), {}, None, None)
+        path, ok = None, None
+        if v.startswith('entry-removed'):
+            if which not in _replayed:
+                path = chk.write_replay('entry-removed', DELETE_REPLAY % which)
+                rc, out = common.run_replay(path, timeout=120)
+                _replayed[which] = (path, common.replay_verdict(rc, out))
+            path, ok = _replayed[which]
+        chk.report_failure('%s: %s (events: %s)' % (label, v, ' / '.join(env.events)), {}, path, ok)
     if not env.violations:
         chk.query(label + ':guarantee+mutual-exclusion', 'unsat', 0.0)
     ok_lock = env.holder != 'me'
@@ -159,6 +218,19 @@ def py_worker(args):
                 if value[1] is not my_result:
                     env.bad('guarantee: publishes something else than its own f() result')
                 env.entry = ('done', value[1])
+
+            def __delitem__(self, tag):
+                env.havoc()
+                env.deleted()
+
+            def pop(self, tag, *default):
+                env.havoc()
+                e = env.entry
+                env.deleted()
+                return self._tuple_of(e) if e is not None else (default[0] if default else None)
+
+            def _tuple_of(self, e):
+                return (False, e[1]) if e[0] == 'pending' else (True, e[1])
 
         my_result = ('my-result', object())
         raises = ex.decide(z3.Bool('f_raises'))
@@ -333,6 +405,14 @@ def c_worker(args):
             ex2.mem.store(my_result, simp(ex2.mem.load(my_result, 8)) + 1, 8)
             return my_result
 
+        def delitem(ex2, d, k):
+            env.havoc()
+            if env.entry is None:
+                py.exc = 'PyExc_KeyError'
+                return mask(32)
+            env.deleted()
+            return 0
+
         def tuple_pack(ex2, n_, *objs):
             return py.new_tuple([simp(o) for o in objs[:simp(n_)]])
         ex.stubs.update({'_PyArg_ParseTupleAndKeywords_SizeT': parse, 'PyDict_GetItemWithError': getitem_err,
@@ -340,7 +420,7 @@ def c_worker(args):
                          'PyThread_allocate_lock': alloc_lock, 'PyThread_free_lock': lambda e, l: None,
                          'PyCapsule_New': capsule_new, 'PyCapsule_GetPointer': capsule_get,
                          'PyThread_acquire_lock': acquire, 'PyThread_release_lock': release,
-                         '_PyObject_CallFunction_SizeT': call_f, 'PyTuple_Pack': tuple_pack,
+                         '_PyObject_CallFunction_SizeT': call_f, 'PyTuple_Pack': tuple_pack, 'PyDict_DelItem': delitem,
                          'PyEval_SaveThread': lambda e: (env.havoc() if env.holder != 'me' else None) or 0,
                          'PyEval_RestoreThread': lambda e, t: None,
                          'PyDict_New': lambda e: cache})
@@ -356,7 +436,7 @@ def c_worker(args):
             chk.sample({'schedule (my operations, environment moves interleaved)': list(env.events), 'outcome': outcome})
         if outcome == 'raised' and py.exc != 'MyErr':
             chk.report_failure('%s: fails with %s although f did not raise (events: %s)' % (name, py.exc, ' / '.join(env.events)), {}, None, None)
-        check_env(chk, ex, env, name, outcome, my_result, lambda res: r == res)
+        check_env(chk, ex, env, name, outcome, my_result, lambda res: r == res, which='c')
 
     res = ex.explore(h, max_paths=50000)
     hutil.finish_explore(chk, ex, res, label)
